@@ -31,6 +31,9 @@ func writeFacts(repo, out string) error {
 		pos token.Pos
 	}
 	var loops []loop
+	// F6: who assigns a `.scope` field (the scope chain head): every entry must go through
+	// enterScope, the only place that checks the stack limit and numbers the depth
+	scopeWriters := map[string]bool{}
 
 	hasSel := func(n ast.Node, name string) bool {
 		found := false
@@ -107,6 +110,16 @@ func writeFacts(repo, out string) error {
 				continue
 			}
 			name := fd.Name.Name
+			ast.Inspect(fd.Body, func(x ast.Node) bool {
+				if as, ok := x.(*ast.AssignStmt); ok {
+					for _, l := range as.Lhs {
+						if se, ok := l.(*ast.SelectorExpr); ok && se.Sel.Name == "scope" {
+							scopeWriters[base+":"+name] = true
+						}
+					}
+				}
+				return true
+			})
 			// F1 scope pairing
 			if name != "enterGlobalScope" && name != "enterFunctionScope" && name != "enterScope" {
 				ast.Inspect(fd.Body, func(x ast.Node) bool {
@@ -255,6 +268,19 @@ func writeFacts(repo, out string) error {
 			b.WriteString(", ")
 		}
 		fmt.Fprintf(&b, "(%q, %v)", l.fn, l.ok)
+	}
+	b.WriteString("]\n\n")
+	ws := make([]string, 0)
+	for w := range scopeWriters {
+		ws = append(ws, w)
+	}
+	sort.Strings(ws)
+	b.WriteString("def scopeWriters : List String := [")
+	for i, w := range ws {
+		if i > 0 {
+			b.WriteString(", ")
+		}
+		fmt.Fprintf(&b, "%q", w)
 	}
 	b.WriteString("]\n\nend OttoVerif.C18.Gen\n")
 	return os.WriteFile(out, []byte(b.String()), 0o644)
